@@ -500,6 +500,17 @@ def class_g(rng):
         op = rng.choice(['+', '-', '*', '/', '%', '^', 'and', 'or', '<', '=='])
         toks = [rng.choice(['1', '2', 'zz_x']), op, rng.choice(['3', 'zz_x']),
                 '"{}"'.format(op)] + toks[:rng.randint(0, 3)]
+    if rng.random() < 0.25:
+        # braces inside braces, `not` before and between operands: accepted
+        # or rejected, but never code that leaves the evaluation stack short
+        # or long
+        toks = [rng.choice(['{ 0 * 2 }', 'not { 1 }', '1 + { 2 }', '{ { 1 } }',
+                            '( { 2 } )', 'zz_x not 5', 'not not 1', '- { 1 }',
+                            '{ zz_x } * { zz_x }', 'not { not { 0 } }',
+                            '2 ^ { 1 + 1 }', '{ 1 } { 2 }', 'not', '{ }'])
+                for _ in range(rng.randint(1, 3))]
+        if rng.random() < 0.5:
+            toks = [' {} '.format(rng.choice(['+', 'and', '*', '<'])).join(toks)]
     form = rng.choice(['assign zz_x 3 assign zz_y {{ {} }}',
                        'assign zz_x 3 print {{ {} }}',
                        'define zz_f begin return 2 end assign zz_x 1 '
